@@ -281,6 +281,131 @@ def reduction_kind(fn):
     return kinds.pop() if len(kinds) == 1 else '.other'
 
 
+# ------------------------------------------------------------------ round 4 (L3, sharper): the comparison FORM of every test of a
+# boolean / optional parameter (`x == False` vs `not x` vs `x is None` differ on None, 0, 0.0, '', [], np.False_, 'False')
+FLAG_CLASSES = ('TimeArray', 'UniformTime', 'TimeSeriesBase', 'TimeSeries', 'Epochs', 'Events', 'Frequency')
+_NEG = {'.eqFalse': '.neFalse', '.neFalse': '.eqFalse', '.eqTrue': '.neTrue', '.neTrue': '.eqTrue', '.isNone': '.isNotNone',
+        '.isNotNone': '.isNone', '.truthy': '.notTruthy', '.notTruthy': '.truthy', '.isFalse': '.other', '.isTrue': '.other',
+        '.other': '.other'}
+
+
+def _cmp_form(op, const):
+    if const is None:
+        return {ast.Is: '.isNone', ast.IsNot: '.isNotNone'}.get(type(op), '.other')   # `x == None` is not the documented form
+    if const is False:
+        return {ast.Eq: '.eqFalse', ast.NotEq: '.neFalse', ast.Is: '.isFalse'}.get(type(op), '.other')
+    if const is True:
+        return {ast.Eq: '.eqTrue', ast.NotEq: '.neTrue', ast.Is: '.isTrue'}.get(type(op), '.other')
+    return None
+
+
+def _subject(e, params, alias):
+    """the tested thing: a parameter name, a comprehension variable ranging over parameters, or `isinstance(<param>, C)`"""
+    if isinstance(e, ast.Name):
+        if e.id in params:
+            return [e.id]
+        if e.id in alias:
+            return list(alias[e.id])
+    if isinstance(e, ast.Call) and isinstance(e.func, ast.Name) and e.func.id == 'isinstance' and len(e.args) == 2 \
+            and isinstance(e.args[0], ast.Name) and e.args[0].id in params:
+        return ['isinstance(%s,%s)' % (e.args[0].id, unparse(e.args[1]).replace(' ', ''))]
+    return []
+
+
+def flag_tests_of(fn, qual):
+    """[(lineno, col, qual, subject, form)] for every test of a parameter of `fn` against True / False / None or by truthiness"""
+    a = fn.args
+    params = {x.arg for x in a.posonlyargs + a.args + a.kwonlyargs} - {'self', 'cls'}
+    parent, alias = {}, {}
+    for n in ast.walk(fn):
+        for ch in ast.iter_child_nodes(n):
+            parent[ch] = n
+        # `(x is not None for x in [p, q, r])`: x ranges over the listed parameters
+        if isinstance(n, ast.comprehension) and isinstance(n.target, ast.Name) and isinstance(n.iter, (ast.List, ast.Tuple)):
+            names = [e.id for e in n.iter.elts if isinstance(e, ast.Name) and e.id in params]
+            if names:
+                alias[n.target.id] = names
+    out = []
+
+    def negated(n):
+        p = parent.get(n)
+        return isinstance(p, ast.UnaryOp) and isinstance(p.op, ast.Not)
+
+    def in_test_position(n):
+        p = parent.get(n)
+        if isinstance(p, (ast.If, ast.IfExp, ast.While, ast.Assert)) and p.test is n:
+            return True
+        if isinstance(p, ast.UnaryOp) and isinstance(p.op, ast.Not):
+            return True
+        if isinstance(p, ast.BoolOp):
+            return True
+        if isinstance(p, ast.comprehension) and n in p.ifs:
+            return True
+        return False
+    for n in ast.walk(fn):
+        if isinstance(n, ast.Compare) and len(n.ops) == 1 and isinstance(n.comparators[0], ast.Constant) \
+                and (n.comparators[0].value is None or isinstance(n.comparators[0].value, bool)):
+            form = _cmp_form(n.ops[0], n.comparators[0].value)
+            for sub in _subject(n.left, params, alias):
+                out.append((n.lineno, n.col_offset, qual, sub, _NEG[form] if negated(n) else form))
+        elif isinstance(n, (ast.Name, ast.Call)) and in_test_position(n):
+            subs = _subject(n, params, alias)
+            if isinstance(n, ast.Call):
+                continue       # a bare `isinstance(…)` test is a plain boolean: only its comparison with a constant is a flag form
+            for sub in subs:
+                out.append((n.lineno, n.col_offset, qual, sub, '.notTruthy' if negated(n) else '.truthy'))
+    return sorted(out)
+
+
+def copy_test_form(new):
+    """the form under which `TimeArray.__new__` takes its NO-COPY branch (the branch of the `if` on `copy` that does not use `conv_fac`)"""
+    if new is None:
+        return '.other'
+    hits = []
+    for n in ast.walk(new):
+        if isinstance(n, ast.If):
+            ts_ = [t for t in flag_tests_of(ast.FunctionDef(name='x', args=new.args, body=[ast.Expr(n.test)], decorator_list=[],
+                                                             lineno=0, col_offset=0), 'x') if t[3] == 'copy']
+            if ts_:
+                hits.append((n, ts_))
+    if len(hits) != 1 or len(hits[0][1]) != 1:
+        return '.other'
+    node, (t,) = hits[0]
+    if not (isinstance(node.test, ast.Compare) or isinstance(node.test, ast.Name) or
+            (isinstance(node.test, ast.UnaryOp) and isinstance(node.test.op, ast.Not))):
+        return '.other'
+    uses = lambda stmts: any(isinstance(x, ast.Name) and x.id == 'conv_fac' for s_ in stmts for x in ast.walk(s_))
+    b, o = uses(node.body), uses(node.orelse)
+    if not b and o:
+        return t[4]
+    if b and not o:
+        return _NEG[t[4]]
+    return '.other'
+
+
+def gen_flag_lines(tree, echo):
+    tests = []
+    for node in ast.walk(tree):
+        if isinstance(node, ast.ClassDef) and node.name in FLAG_CLASSES:
+            seen = {}
+            for fn in node.body:
+                if isinstance(fn, ast.FunctionDef):
+                    seen[fn.name] = fn          # python keeps the last definition
+            for fn in seen.values():
+                tests += flag_tests_of(fn, '%s.%s' % (node.name, fn.name))
+    tests.sort()
+    echo['flag tests'] = ['%s %s %s' % t[2:] for t in tests]
+    ct = copy_test_form(last_func(tree, '__new__', 'TimeArray'))
+    echo['TimeArray.__new__ no-copy branch taken when'] = ct
+    L = ['/-- every test of a boolean / optional PARAMETER against `True` / `False` / `None` or by truthiness, in the constructors and',
+         'methods of %s, in source order: (Class.method, parameter, comparison form) -/' % ', '.join(FLAG_CLASSES),
+         'def flagTests : List FlagTest := [']
+    L += ['  ⟨"%s", "%s", %s⟩%s' % (t[2], t[3], t[4], ',' if i + 1 < len(tests) else '') for i, t in enumerate(tests)]
+    L += ['  ]', '', '/-- `TimeArray.__new__` takes its NO-COPY branch (data taken as base units, never scaled) iff this holds of `copy` -/',
+          'def copyTest : FlagForm := %s' % ct, '']
+    return L
+
+
 def gen_c01ctor():
     tree = T.parse('nitime/timeseries.py')
     echo = {}
@@ -335,7 +460,9 @@ def gen_c01ctor():
         k = reduction_kind(last_func(tree, r, 'UniformTime'))
         echo['UniformTime.' + r] = k
         L.append('  | "%s" => %s' % (r, k))
-    L += ['  | _ => .missing', '', 'end Nitime.Generated.C01Ctor', '']
+    L += ['  | _ => .missing', '']
+    L += gen_flag_lines(tree, echo)
+    L += ['end Nitime.Generated.C01Ctor', '']
     return 'C01Ctor.lean', '\n'.join(L), echo
 
 
